@@ -43,6 +43,10 @@ def text(s, font=0, tc=7, bg='-', ul=0, sk=0, align=0, base=3, lh=0, x=4, y=12):
     return J('text', font, tc, bg, ul, sk, align, base, lh, x, y, hexs(s))
 
 
+def rend(mode, width, s, **kw):
+    return J('rend', mode, width, *text(s, **kw).split(' ')[1:])
+
+
 def image(kind, w, h, x, y, sub=(0, 0, 0, 0), sub2=(0, 0, 0, 0)):
     return J('image', kind, w, h, x, y, *sub, *sub2)
 
@@ -92,6 +96,10 @@ def fixed_drawables():
             text('BIG 10x20', font=5, bg=5, ul=3, sk=4, base=1), text('only decoration', tc='-', bg='-', ul=5, sk=6),
             text('clipped text that is long enough to leave the target', bg=2, ul=1, x=-10, y=5),
             text('invisible', tc='-', bg='-')]
+    # TextRenderer API used directly (draw_whitespace is not reachable through Text)
+    out += [rend(1, 9, '', bg=2, ul=1, sk=5), rend(1, 9, '', bg='-', ul=1, sk=1), rend(1, 5, '', bg=3), rend(1, 0, '', bg=3, ul=1),
+            rend(1, 7, '', tc='-', bg='-', ul=4), rend(0, 0, 'ab c', bg=2, ul=1, font=2), rend(2, 6, 'xy', bg=2, ul=1, sk=1),
+            rend(2, 4, 'q', tc=3, bg='-', sk=8, base=1, font=3), rend(1, 300, '', bg=2, sk=1, x=-100)]
     # pixel iterators / Pixel::draw / clear
     px = [(1, 1, 3), (2, 5, 4), (40, 40, 5), (-3, 2, 6), (7, 7, 7), (100, 100, 8)]
     flat = ' '.join(J(*p) for p in px)
@@ -111,7 +119,7 @@ def rnd_rect(rng, lo=-8, hi=30, m=26):
 
 
 def rnd_drawable(rng):
-    k = rng.randrange(14)
+    k = rng.randrange(15)
     p = lambda: (rng.randrange(-6, 34), rng.randrange(-6, 30))
     s = rnd_style(rng)
     if k == 0:
@@ -138,6 +146,11 @@ def rnd_drawable(rng):
     if k == 9:
         w, h = rng.randrange(0, 14), rng.randrange(0, 12)
         return image(rng.randrange(4), w, h, *p(), rnd_rect(rng, -2, 8, 12), rnd_rect(rng, -2, 6, 8))
+    if k == 14:
+        o = lambda: rng.choice(['-', rng.randrange(1, 40)])
+        s_ = ''.join(rng.choice('abXY 01 ') for _ in range(rng.randrange(0, 6)))
+        return rend(rng.randrange(3), rng.choice([0, 1, 5, 12, 40]), s_, font=rng.randrange(6), tc=o(), bg=o(), ul=rng.choice([0, 1, 17]),
+                    sk=rng.choice([0, 1, 23]), base=rng.randrange(4), x=p()[0], y=p()[1])
     if k in (10, 11, 12):
         alpha = 'abcXYZ 019.,  \n\n\r' + 'éß'
         s_ = ''.join(rng.choice(alpha) for _ in range(rng.randrange(0, 18)))
